@@ -29,6 +29,7 @@ func errValueOf(call *ssa.Call) (v ssa.Value, hasErr bool) {
 //   - callee without error result: the call itself
 //   - error tested against nil: first instruction of the block on the nil edge (if that block has a single predecessor)
 //   - error returned directly by the enclosing function: the Return (a success return of the caller implies success)
+//
 // checked=false if the error result is dropped or never tested/returned: success is then unknown to the caller.
 func successPoints(call *ssa.Call) (pts []ssa.Instruction, checked bool) {
 	return successPointsP(nil, call)
